@@ -27,6 +27,9 @@ type c13Session struct {
 	GoLDAP     bool      `json:"goldap"`     // drive the upgrade with go-ldap's StartTLS instead of the raw client
 	Pre        int       `json:"pre"`        // plaintext requests answered before the StartTLS
 	PauseMs    int       `json:"pause_ms"`   // idle time inside the tunnel before the requests are sent
+	// Inject: the (raw) client puts a complete plaintext request behind its StartTLS request in the same
+	// write. It arrived outside the TLS session: it must never be served, neither before nor inside the tunnel.
+	Inject bool `json:"inject,omitempty"`
 }
 
 type c13Case struct {
@@ -187,7 +190,7 @@ func c13Session1(si int, s c13Session, srv *lab.Server, pki *lab.PKI, rc *record
 		conn.Close()
 		time.Sleep(5 * time.Millisecond)
 		c2s, s2c := tap.Captured()
-		return c13Wire(desc, c2s, s2c, -1, -1)
+		return c13Wire(desc, c2s, s2c, -1, -1, 0)
 	}
 	cl, err := lab.Dial(tap.Addr)
 	if err != nil {
@@ -205,7 +208,17 @@ func c13Session1(si int, s c13Session, srv *lab.Server, pki *lab.PKI, rc *record
 		}
 	}
 	plainLen += len(startTLSReq.Encode())
-	if err := cl.StartTLS(pki.ClientTLS(false), startTLSReq.MsgID); err != nil {
+	var trailer []byte
+	injectedID := base + 460000
+	if s.Inject {
+		trailer = simpleReq("delete", injectedID).Bytes()
+		desc += ", a plaintext delete request pipelined behind the StartTLS request"
+	}
+	if err := cl.StartTLSWithTrailer(pki.ClientTLS(false), startTLSReq.MsgID, trailer); err != nil {
+		if s.Inject {
+			// the server may also refuse to go on with such a client: nothing was served, nothing to check
+			return nil
+		}
 		return lab.Failf("client-handshake-failed", "%s: %v", desc, err)
 	}
 	// requests inside the tunnel (optionally after the session has been idle for a while)
@@ -225,6 +238,33 @@ func c13Session1(si int, s c13Session, srv *lab.Server, pki *lab.PKI, rc *record
 		bufs = append(bufs, r.Bytes())
 	}
 	got := map[int64]int{}
+	if s.Inject {
+		// a marker request inside the tunnel: by the time it is answered, anything the server kept from
+		// the plaintext phase would have been served as well
+		q := simpleReq("bind", base+470000)
+		_ = cl.Send(q.Bytes())
+		for {
+			m, err := cl.Next(15 * time.Second)
+			if err != nil {
+				return lab.Failf("tunnel-request-failed", "%s: marker request inside the tunnel unanswered: %v", desc, err)
+			}
+			if m.ID == injectedID {
+				return lab.Failf("plaintext-request-answered-in-tunnel", "%s: the request that was sent in PLAINTEXT before the handshake (msgid=%d) was answered inside the TLS tunnel", desc, injectedID)
+			}
+			if m.ID == q.MsgID {
+				break
+			}
+		}
+		for _, o := range rc.snapshot() {
+			id := o.MsgID
+			if len(o.Kinds) == 0 {
+				id = o.HookID
+			}
+			if id == injectedID {
+				return lab.Failf("plaintext-request-dispatched", "%s: the request that was sent in PLAINTEXT behind the StartTLS request (msgid=%d) reached handler %q", desc, injectedID, o.Route)
+			}
+		}
+	}
 	if s.Concurrent {
 		var all []byte
 		for _, b := range bufs {
@@ -282,6 +322,9 @@ func c13Session1(si int, s c13Session, srv *lab.Server, pki *lab.PKI, rc *record
 	if s.PauseMs > 0 {
 		first++
 	}
+	if s.Inject {
+		first++ // the marker bind
+	}
 	gotIDs := map[int]bool{}
 	for id := range want {
 		gotIDs[byID[id].ReqID] = true
@@ -301,12 +344,12 @@ func c13Session1(si int, s c13Session, srv *lab.Server, pki *lab.PKI, rc *record
 	cl.Close()
 	time.Sleep(2 * time.Millisecond)
 	c2s, s2c := tap.Captured()
-	return c13Wire(desc, c2s, s2c, plainLen, startTLSReq.MsgID)
+	return c13Wire(desc, c2s, s2c, plainLen, startTLSReq.MsgID, len(trailer))
 }
 
 // c13Wire classifies the captured bytes: LDAP frames up to and including the
 // StartTLS exchange, TLS records only afterwards.
-func c13Wire(desc string, c2s, s2c []byte, plainLen int, respID int64) *lab.Fail {
+func c13Wire(desc string, c2s, s2c []byte, plainLen int, respID int64, clientTrailer int) *lab.Fail {
 	// client -> server: skip whole LDAP frames until the StartTLS request has passed
 	off := 0
 	for off < len(c2s) {
@@ -322,6 +365,10 @@ func c13Wire(desc string, c2s, s2c []byte, plainLen int, respID int64) *lab.Fail
 	}
 	if plainLen >= 0 && off != plainLen {
 		return lab.Failf("wire-plaintext-client", "%s: client->server capture: StartTLS request ends at %d, expected %d", desc, off, plainLen)
+	}
+	// the plaintext the client itself chose to pipeline behind its StartTLS request is the client's business
+	if clientTrailer > 0 && off+clientTrailer <= len(c2s) {
+		off += clientTrailer
 	}
 	if err := classifyTLS(c2s[off:], true); err != nil {
 		return lab.Failf("wire-plaintext-client", "%s: client->server bytes after the StartTLS request are not all TLS records: %v", desc, err)
@@ -368,7 +415,7 @@ func TestC13(t *testing.T) {
 	delays := []int{0, 0, 1, 5, 20, 50}
 	lab.Prop[c13Case]{
 		ID: "C13", Part: "starttls",
-		Rule: "rapid: 1..16 parallel sessions through a recording wiretap proxy; the StartTLS handler sleeps d1, writes success, sleeps d2 (0..50 ms, occasionally up to 600 ms; the client's ClientHello is already on the wire), calls Request.StartTLS, sleeps d3; the session may then stay idle for 0.3..2.5 s; then 1..40 generated requests of all operations (controls, binary values) inside the tunnel, sequentially or pipelined in one write; the server's logger is at Error or Debug level; handlers of the plaintext requests before the StartTLS may linger after answering; conforming clients = raw independent client and go-ldap StartTLS; oracle = handshake succeeds for every timing, every tunnel request is decoded (field-by-field as C01), numbered in continuation of the connection's Request.IDs and answered once, and every captured byte after the StartTLS exchange is a TLS record in both directions; non-trivial = d2 > 0 and >= 2 concurrent requests after the upgrade; distinct by hash of the session",
+		Rule: "rapid: 1..16 parallel sessions through a recording wiretap proxy; the StartTLS handler sleeps d1, writes success, sleeps d2 (0..50 ms, occasionally up to 600 ms; the client's ClientHello is already on the wire), calls Request.StartTLS, sleeps d3; the session may then stay idle for 0.3..2.5 s; then 1..40 generated requests of all operations (controls, binary values) inside the tunnel, sequentially or pipelined in one write; the server's logger is at Error or Debug level; handlers of the plaintext requests before the StartTLS may linger after answering; conforming clients = raw independent client and go-ldap StartTLS; one raw session in five also pipelines a complete plaintext request behind its StartTLS request in the same write (it must never be dispatched or answered, neither before nor inside the tunnel); oracle = handshake succeeds for every timing, every tunnel request is decoded (field-by-field as C01), numbered in continuation of the connection's Request.IDs and answered once, and every captured byte after the StartTLS exchange is a TLS record in both directions; non-trivial = d2 > 0 and >= 2 concurrent requests after the upgrade; distinct by hash of the session",
 		Gen: func(t *rapid.T) c13Case {
 			var c c13Case
 			c.Debug = rapid.IntRange(0, 3).Draw(t, "debuglog") == 0
@@ -389,6 +436,7 @@ func TestC13(t *testing.T) {
 					Concurrent: rapid.Bool().Draw(t, "concurrent"),
 					GoLDAP:     i == 0 && rapid.IntRange(0, 3).Draw(t, "goldap") == 0,
 					Pre:        rapid.IntRange(0, 2).Draw(t, "pre"),
+					Inject:     rapid.IntRange(0, 4).Draw(t, "inject") == 0,
 				}
 				if rapid.IntRange(0, 9).Draw(t, "pause") == 0 {
 					s.PauseMs = rapid.SampledFrom([]int{300, 1200, 2500}).Draw(t, "pausems")
